@@ -72,7 +72,11 @@ func (c *ClientContext) Clone() Context {
 // GetClientContext returns the *core.ClientContext bound to the context.
 func GetClientContext(ctx context.Context) *ClientContext {
 	if c, ok := FromContext(ctx); ok {
-		return c.(*ClientContext)
+		// the context of a service function that is passed on to a client proxy carries a
+		// ServiceContext: that is "no client context", not a failed type assertion
+		if cc, ok := c.(*ClientContext); ok {
+			return cc
+		}
 	}
 	return nil
 }
